@@ -262,4 +262,6 @@ def replay(obj):
         bad = any(g != ref[0] for g in got)
         print('PROPERTY FAILS' if bad else 'notes are the same alone and in this context')
         return 1 if bad else 0
-    return 0
+    import sys
+    from common import rerun_for_signature
+    return rerun_for_signature(sys.modules[__name__], f)
